@@ -109,6 +109,13 @@ def utils_scenario(rng):
            'build 17 o1;c6b31;o1;c696e;s76;', 'build 18 a1;o3;k6f70;s636f7079;k66726f6d;s2f6b31;k70617468;s;', 'patch 17 18 1', 'print 17 0',
            # NULL arguments where the utilities check for them (a NULL *document* for ApplyPatches is
            # dereferenced by the library and is outside every property: not called)
+           # the case-insensitive twins of the utilities (no property quantifies over them, but their
+           # memory traffic is the library's all the same): generate, apply, merge, and a hand-written
+           # patch whose remove / replace / add go through the case-insensitive object calls
+           'dup 20 1 1', 'genp 21 1 2 0', 'patch 20 21 0', 'genm 22 1 2 0', 'dup 23 1 1', 'merge 24 23 22 0', 'text 24 0',
+           'build 25 o3;k41;n3ff0000000000000,1;k62;o1;k43;tk64;a1;z', 'build 26 a4;o2;k6f70;s72656d6f7665;k70617468;s2f61;o3;k6f70;s7265706c616365;k70617468;s2f422f63;k76616c7565;fo3;k6f70;s616464;k70617468;s2f442f30;k76616c7565;s78;o2;k6f70;s72656d6f7665;k70617468;s2f6e6f6e65;',
+           'patch 25 26 0', 'text 25 0', 'build 27 o2;k61;zk42;o1;k63;z', 'build 28 o3;k41;n3ff0000000000000,1;k62;o2;k43;tk78;fk7a;t', 'merge 29 28 27 0', 'text 29 0',
+           'del 20', 'del 21', 'del 22', 'del 24', 'del 25', 'del 26', 'del 27', 'del 29',
            'getp 19 ~ =2f61 1', 'getp 19 1 ~ 1', 'getp 19 ~ ~ 0', 'patch 1 ~ 1', 'patch ~ ~ 0', 'genp 19 ~ 1 1', 'genp 19 1 ~ 0', 'genm 19 1 ~ 1', 'del 19', 'genm 19 ~ 1 0', 'del 19',
            'sort ~ 1', 'sort ~ 0', 'findp ~ 7', 'findp 1 ~', 'addpatch ~ =616464 =2f78 2', 'addpatch 10 ~ =2f78 2', 'addpatch 10 =616464 ~ 2',
            'del 1', 'del 2', 'del 3', 'del 4', 'del 6', 'del 9', 'del 10', 'del 11', 'del 12', 'del 13', 'del 14', 'del 15', 'del 16', 'del 17', 'del 18']
